@@ -27,6 +27,11 @@ class C04(RecorderProp):
     # -- interceptions in flight on worker threads (controlled scheduler, line granularity) ---------------------------
     def generate(self, rng, tier):
         cases = super(C04, self).generate(rng, tier)
+        for kind in self.ITER_KINDS:
+            for copy in (False, True):
+                for site in ('in', 'out'):
+                    cases.append({'kind': 'iter', 'model': False, 'iter': kind, 'copy': copy, 'site': site,
+                                  'data': [rng.randint(0, 9) for _ in range(rng.randint(1, 4))], 'partly': rng.random() < 0.5})
         for i in range(self.THREAD_SCENARIOS[tier]):
             base = T.gen_base(rng)
             # every schedule with at most k pre-emptions (bounded by max_runs), explored inside run_impl
@@ -35,7 +40,58 @@ class C04(RecorderProp):
                 cases.append(dict(base, rand=rng.randrange(10 ** 9)))
         return cases
 
+    # -- one-shot values: an intercepted function hands its caller an iterator / generator / stream -------------------------
+    ITER_KINDS = ['generator', 'list_iterator', 'reversed', 'map', 'zip', 'stringio', 'dict_items_iter']
+
+    @staticmethod
+    def make_iter(kind, data):
+        import io
+        if kind == 'generator':
+            return (x for x in data)
+        if kind == 'list_iterator':
+            return iter(list(data))
+        if kind == 'reversed':
+            return reversed(list(data))
+        if kind == 'map':
+            return map(lambda x: x * 2, data)
+        if kind == 'zip':
+            return zip(data, data)
+        if kind == 'stringio':
+            return io.StringIO('\n'.join(str(x) for x in data) + '\n')
+        return iter({str(x): x for x in data}.items())
+
+    def run_iter_case(self, case):
+        from playback.tape_recorder import TapeRecorder, RecordingParameters
+        from playback.tape_cassettes.in_memory.in_memory_tape_cassette import InMemoryTapeCassette
+        tr = TapeRecorder(InMemoryTapeCassette())
+        tr.enable_recording()
+        make, kind, data = self.make_iter, case['iter'], case['data']
+
+        def body(self_, consume_partly=case['partly']):
+            it = self_.fetch()
+            head = []
+            if consume_partly:
+                head = [next(it, None)] if not hasattr(it, 'readline') else [it.readline()]
+            rest = [x for x in it]
+            return [repr(x) for x in head + rest]
+
+        def fetch(self_):
+            return make(kind, data)
+        deco = tr.intercept_input('fetch') if case['site'] == 'in' else tr.intercept_output('fetch')
+        Op = type('IterOp', (object,), {'execute': tr.operation()(body), 'fetch': deco(fetch)})
+        tr.recording_params(RecordingParameters(copy_data_on_intercepion=case['copy']))(Op)
+        Twin = type('IterTwin', (object,), {'execute': body, 'fetch': fetch})
+
+        def end_of(thunk):
+            try:
+                return ['ret', thunk()]
+            except Exception as ex:
+                return ['exc', type(ex).__name__]
+        return {'end': end_of(lambda: Op().execute()), 'twinEnd': end_of(lambda: Twin().execute())}
+
     def run_impl(self, case):
+        if case.get('kind') == 'iter':
+            return self.run_iter_case(case)
         if case.get('kind') != 'threads':
             return super(C04, self).run_impl(case)
         want = T.expected(case)
@@ -65,6 +121,8 @@ class C04(RecorderProp):
         return out
 
     def model_requests(self, case):
+        if case.get('kind') == 'iter':
+            return []
         if case.get('kind') != 'threads':
             return super(C04, self).model_requests(case)
         rnd = random.Random(repr(sorted(case.items(), key=lambda kv: kv[0])))
@@ -73,6 +131,8 @@ class C04(RecorderProp):
                  'schedule': [rnd.randrange(n + 1) for _ in range(40)]}]
 
     def model_transcript(self, case, answers):
+        if case.get('kind') == 'iter':
+            return None
         if case.get('kind') != 'threads':
             return super(C04, self).model_transcript(case, answers)
         a = answers[0]
@@ -81,28 +141,40 @@ class C04(RecorderProp):
         return {'results': a['results'], 'main': [['ret', 'done']], 'outcome': 'finished'}
 
     def impl_view(self, case, impl):
+        if case.get('kind') == 'iter':
+            return None
         if case.get('kind') != 'threads':
             return super(C04, self).impl_view(case, impl)
         return {'results': [[[k, v[1] if k == 'ret' else v] for k, v in w] for w in impl['results']], 'main': impl['main'],
                 'outcome': impl['outcome']}
 
     def sample_repr(self, case):
-        if case.get('kind') == 'threads':
+        if case.get('kind') in ('threads', 'iter'):
             return case
         return super(C04, self).sample_repr(case)
 
     def features(self, case, impl):
+        if case.get('kind') == 'iter':
+            return ['one-shot-value:' + case['iter']]
         if case.get('kind') != 'threads':
             return super(C04, self).features(case, impl)
         return ['threads', 'threads:main=' + case['main'], 'threads:schedules-explored=%d' % impl.get('_explored', 1)] + \
                (['threads:exhaustive<=%d-preemptions' % case['explore']] if case.get('explore') is not None else ['threads:random-schedule'])
 
     def shrink(self, case):
+        if case.get('kind') == 'iter':
+            return []
         if case.get('kind') != 'threads':
             return super(C04, self).shrink(case)
         return []
 
     def oracle(self, case, impl):
+        if case.get('kind') == 'iter':
+            if impl['end'] != impl['twinEnd']:
+                return ['one-shot value (%s from an intercepted %s, copy_data_on_intercepion=%s): the decorated operation saw %r, '
+                        'the undecorated twin %r' % (case['iter'], 'input' if case['site'] == 'in' else 'output', case['copy'],
+                                                     impl['end'], impl['twinEnd'])]
+            return []
         if case.get('kind') == 'threads':
             want = T.expected(case)
             fails = []
@@ -132,7 +204,7 @@ class C04(RecorderProp):
         return None
 
     def nontrivial(self, case, impl):
-        if case.get('kind') == 'threads':
+        if case.get('kind') in ('threads', 'iter'):
             return True
         return any(r['journal'] for r in impl if 'journal' in r)
 
